@@ -104,6 +104,9 @@ def _c18():
         ("c18_mv_1leaf_s0", "1 leaf path, 0 siblings", "quick", 6),
         ("c18_mv_1leaf_s2", "1 leaf path, 2 siblings", "quick", 6),
         ("c18_mv_1term_s1", "1 terminator(depth 3) path, 1 sibling", "quick", 6),
+        ("c18_mv_1term1_s3", "1 terminator(depth 1) path, 3 siblings (more than its depth)", "quick", 6),
+        ("c18_mv_1term0_s2", "1 terminator(root) path, 2 siblings", "quick", 6),
+        ("c18_mv_1term2_s4", "1 terminator(depth 2) path, 4 siblings", "quick", 6),
         ("c18_mq_1leaf_s1", "1 leaf path, 1 sibling, + find_index_for/confirm_* on a symbolic query", "thorough", 30),
 
     ]
@@ -132,7 +135,7 @@ def _c18():
     for h, d, tier, mem in mv:
         cls = "multi3" if "3 leaf" in d else ("multi2" if h.startswith("c18_mv_2") or "leafterm" in h or "2leaf" in h else "multi1")
         allow = [] if h.startswith("c18_mq") else ["in-scope query"]
-        if h == "c18_mv_empty_s1":
+        if h in ("c18_mv_empty_s1", "c18_mv_1term1_s3", "c18_mv_1term0_s2", "c18_mv_1term2_s4"):
             allow.append("some multi-proof verifies")
         obl.append(K("c18_multi::" + h, tier=tier, unwind=10, classes=cls, allow_unsat=allow, timeout_s=1500 if tier == "quick" else 7200,
                      mem_gb=mem, memsafe=(tier != "quick"),
@@ -300,11 +303,11 @@ def P(name, desc, bounds, tier="quick", **kw):
     return d
 
 
-ASSUME_P = ("control/event structure only: a path is a sequence of <= 120 MIR basic blocks of the named function (cleanup/unwind "
+ASSUME_P = ("control/event structure only: a path is a sequence of <= 120 / 240 (quick / thorough) blocks of the event-contracted MIR CFG of the named function (cleanup/unwind "
             "edges removed, loops iterated freely within the bound), every branch a free choice except switches on one unmodified "
             "local; callee bodies are separate obligations; the bytes written and other threads are not modelled; events are "
             "recognised by callee name and by the source text under the call's MIR span")
-P_BOUNDS = "every CFG path of <= 120 basic-block steps from the function entry"
+P_BOUNDS = "every CFG path of <= 120 (quick) / 240 (thorough) basic-block steps of the event-contracted CFG from the function entry"
 
 P_RECOVER_FSYNC = P("recover_fsync", "bitbox::recover: every HT write is followed by fsync(ht) before truncate_wal", P_BOUNDS, assumes=[ASSUME_P])
 P_WRITEOUT_FSYNC = P("writeout_fsync", "write_wal / write_ht / Meta::write: data written is fsynced before Ok is returned", P_BOUNDS, assumes=[ASSUME_P])
@@ -319,6 +322,15 @@ P_COMMIT_CHECK = P("commit_check_first", "FinishedSession::{commit, try_commit_n
 P_POISON = P("store_commit_poison", "Store::commit: poisoned is loaded before Sync::sync; an Err from Sync::sync is returned only after "
              "poisoned was stored", P_BOUNDS, assumes=[ASSUME_P])
 P_RECOVER_ORDER = P("recover_order", "bitbox::recover: no HT write after the WAL was truncated", P_BOUNDS, assumes=[ASSUME_P])
+P_OPEN_ORDER = P("open_order", "Store::open: the directory lock is taken before Meta::read; the meta is validated before Tree::open / "
+                 "bitbox::DB::open (which runs WAL recovery)", P_BOUNDS, assumes=[ASSUME_P])
+P_OPEN_SWALLOW = P("open_no_swallow", "Store::open: no fallible value is dropped uninspected", P_BOUNDS, tier="thorough",
+                   assumes=[ASSUME_P], timeout_s=900)
+P_BEATREE_SYNC = P("beatree_sync", "beatree::SyncController: the begin_sync task issues fsync(bbn) and fsync(ln) after prepare_sync and before "
+                   "Ok; wait_pre_meta joins the task and waits for both fsyncs before returning the new meta data; nothing fallible is dropped",
+                   P_BOUNDS, assumes=[ASSUME_P])
+P_ROLLBACK_SYNC = P("rollback_sync", "rollback: begin_sync / writeout_start prune or truncate nothing (pruning only in writeout_end, post-meta); "
+                    "writeout_end propagates prune errors", P_BOUNDS, assumes=[ASSUME_P])
 P_PRE_META = P("pre_meta_no_ht_write", "bitbox pre-meta phase (begin_sync task, WAL writeout task, prepare_sync, begin_sync, wait_pre_meta) "
                "issues no HT write; post_meta truncates the WAL only after write_ht returned", P_BOUNDS, assumes=[ASSUME_P])
 
@@ -350,6 +362,16 @@ K_BITOPS = _nomt_family("c01_bitops", ["c01_prefix_len_matches_reference", "c01_
                         "independent word-level references", "every pair of 256-bit keys (full width, all 64 bytes symbolic)",
                         ["nomt::beatree::ops::bit_ops::separate", "nomt::beatree::ops::bit_ops::prefix_len",
                          "nomt::beatree::ops::bit_ops::separator_len"], unwind=34, classes="default", timeout_s=1800, mem_gb=8)
+K_BRANCH = _nomt_family("c01_branch", ["c01_branch_n1_pc1", "c01_branch_n2_pc2", "c01_branch_n2_pc1", ("c01_branch_n3_pc2", "thorough"),
+                                        ("c01_branch_n3_pc1", "thorough")],
+                        "branch node: separators pushed through BranchNodeBuilder (first pc prefix-compressed with an 8-bit shared prefix, the "
+                        "rest stored whole) are reconstructed by get_key, keep their node pointers, and search_branch(key) returns the last "
+                        "separator <= key (None below the first) for every key",
+                        "n <= 3 separators, keys symbolic in their first 3 bytes (strictly increasing, uncompressed tail beyond the shared "
+                        "prefix), page numbers symbolic, query key symbolic in 3 bytes; zeroed page",
+                        ["nomt::beatree::branch::node::BranchNodeBuilder::{new, push, finish}", "nomt::beatree::branch::node::get_key",
+                         "nomt::beatree::ops::{search_branch, find_key_pos}", "nomt::beatree::ops::bit_ops::{reconstruct_key, separator_len}"],
+                        unwind=36, classes="bitvec_small", timeout_s=1800, mem_gb=8)
 K_LEAF_LAYOUT = _nomt_family("c01_leaf", ["c16_leaf_layout_n0", "c16_leaf_layout_n1_v0", "c16_leaf_layout_n2_v3_4", "c16_leaf_layout_n3_v4_4_4"],
                              "the built leaf page decodes by the documented layout alone (independent decoder): header n, cell pointer = "
                              "key ++ le16(offset | overflow<<15), offsets increasing from 4096-sum(len), last cell ends at 4096, pointer "
@@ -401,18 +423,18 @@ PROPERTIES = {
             "outside": ["store-side witness assembly (sibling patching, path_index offsets across workers)", "shapes beyond the menu"]},
     "C07": {"level": "model_checking", "obligations": _c07(), "explanation": _KANI_EXPL,
             "outside": ["sets beyond the shape menu", "'and as the store itself' (store-side root)"]},
-    "C01": {"level": "model_checking", "obligations": K_LEAF_ACC + K_BITOPS + [M_OVERFLOW],
+    "C01": {"level": "model_checking", "obligations": K_LEAF_ACC + K_BITOPS + [M_OVERFLOW],  # K_BRANCH: symex does not finish in 30 min even for n = 1 (unclaimed)
             "explanation": "Solver decisions over the pure steps lookups/updates are composed of: Kani/CBMC over the real leaf-page "
                            "codec, z3 over the MIR of the overflow-page arithmetic.",
             "outside": ["multi-commit histories through threads and files", "staged/secondary lookup shadowing, leaf/branch stages, "
                         "bulk split, branch updater, overflow page I/O", "LeafNode::get (binary search at symbolic offsets into a 4096-byte "
                         "page exhausts CBMC's propositional reduction: measured OOM at 24 GB) - see DESIGN.md"]},
-    "C03": {"level": "model_checking", "obligations": [P_SYNC_ORDER, P_RECOVER_ORDER, P_PRE_META],
+    "C03": {"level": "model_checking", "obligations": [P_SYNC_ORDER, P_RECOVER_ORDER, P_PRE_META, P_OPEN_ORDER, P_OPEN_SWALLOW],
             "explanation": "Protocol order: bounded model checking (z3) of the MIR control/event structure of the commit and recovery "
                            "orchestration - the order in which durable effects are issued relative to the single switch-over (Meta::write).",
             "outside": ["that the bytes reachable from the old/new meta decode to the old/new state", "beatree / rollback controllers' "
                         "internals, rollback-in-progress crashes, Store::open order", "thread interleavings of the spawned tasks"]},
-    "C04": {"level": "model_checking", "obligations": [P_RECOVER_FSYNC, P_WRITEOUT_FSYNC, P_SYNC_ORDER, P_PRE_META],
+    "C04": {"level": "model_checking", "obligations": [P_RECOVER_FSYNC, P_WRITEOUT_FSYNC, P_SYNC_ORDER, P_PRE_META, P_BEATREE_SYNC],
             "explanation": "Protocol order: every write the new state depends on is covered by a completed fsync before the function that "
                            "issued it reports success / before the redo log is discarded; decided by z3 over the MIR event structure; a "
                            "counterexample is replayed as a syscall trace (strace) of a real crash-recovery run.",
@@ -421,12 +443,12 @@ PROPERTIES = {
             "explanation": "In each of the four commit entry points the previous-root check dominates every effect; counterexamples are "
                            "replayed as concrete API histories (stale commit, then rollback / overlay-chain completeness).",
             "outside": ["interleavings of two racing committers", "effects hidden inside Store::commit on the accepted path"]},
-    "C14": {"level": "model_checking", "obligations": [P_NO_SWALLOW, P_POISON, P_SYNC_ORDER],
+    "C14": {"level": "model_checking", "obligations": [P_NO_SWALLOW, P_POISON, P_SYNC_ORDER, P_BEATREE_SYNC, P_ROLLBACK_SYNC],
             "explanation": "No fallible I/O value is dropped uninspected in the bitbox/meta/sync orchestration; an error from Sync::sync "
                            "poisons the store before it is returned; a failure before the switch-over returns before any post-meta step. "
                            "Counterexamples are replayed with injected page-write failures against the real crate.",
             "outside": ["beatree / rollback / seglog error paths", "hangs (channel pairing)", "what the reopened state is"]},
-    "C17": {"level": "model_checking", "obligations": [P_PRE_META, P_SYNC_ORDER, P_RECOVER_ORDER],
+    "C17": {"level": "model_checking", "obligations": [P_PRE_META, P_SYNC_ORDER, P_RECOVER_ORDER, P_ROLLBACK_SYNC],
             "explanation": "Until Meta::write returned, the bitbox side writes only the WAL: no HT page write, no WAL truncation. Decided "
                            "over the MIR event structure of the pre-meta functions.",
             "outside": ["beatree page allocation (new data only to free / beyond-end pages)", "rollback seglog pruning", "free-list correctness"]},
